@@ -8,6 +8,8 @@ mkdir -p sim/target/simstd
 export GMSIM_SIMSTD="$PWD/sim/target/simstd/libsimstd.rlib"
 export RUSTC_WRAPPER="$PWD/sim/rustc-wrapper.sh"
 rustc --edition 2021 -C opt-level=3 --crate-type rlib --crate-name simstd sim/simstd/lib.rs -o "$GMSIM_SIMSTD"
+# the facade must accept everything std::sync offers (a library change may use any of it)
+rustc --edition 2021 --crate-type rlib --crate-name api sim/simstd/api_test.rs --extern "std=$GMSIM_SIMSTD" -o sim/target/simstd/libapi_test.rlib
 ( cd sim && cargo build --release --offline 2>&1 | tail -3 )
 cc -O2 -shared -fPIC -o sim/target/simenv.so sim/shim/simenv.c
 sim/target/release/gmsim selftest
